@@ -785,6 +785,10 @@ class dok_matrix(spmatrix):
 
     def __setitem__(self, k, v):
         k = self._key(k)
+        if self._dtype != np.dtype(float):
+            cell = [v]
+            _narrow(cell, self._dtype)          # a dictionary of float32 / int cells rounds what it is given
+            v = cell[0]
         if not core.is_sym(v) and v == 0:
             self.d.pop(k, None)       # scipy dok drops zeros on assignment
         elif core.is_sym(v) and not (v != 0):
